@@ -287,6 +287,7 @@ def check(run):
         ast, _ = crules.unit(run, ndebug=nd)
         crules.order_rules(run, r4, None, ast)
         crules.cells_rules(run, r5, None, None, ast)
+        crules.model_rules(run, r5, ast, parts=("dummies",))
         run.rule("C02-best", "best(): an incomparable member is never removed (so that ambiguity is detected)", floor=3)
         crules.best_rules(run, "C02-best", ast)
     must = ["yorel::yomm2::method<>::not_implemented_handler", "yorel::yomm2::method<>::ambiguous_handler",
